@@ -85,6 +85,8 @@ T += ["r.c.\uff3f\uff3fclass\uff3f\uff3f", "r.c._\uff3fclass_\uff3f", "r.c.\uff3
       "\uff4f\uff50\uff45\uff4e('/dev/shm/c09-pwned', 'w')", "r.c.\uff46ire()", "\uff47etattr(r, 's')", "lower._\uff3fglobals_\uff3f", "r.c.fi\u00adre()",
       "NoneType()", "NoneType(1)", "r.c.NoneType(1)", "r.c.NoneType", "r.c.NoneType.fire()", "r.c.fire('NoneType')", "r.c.__class__ == 'NoneType'",
       "r.c.__dict__ == get_type(None)", "unknown_NoneType_name(1)", "str(r.c.fire()) == \"<class 'NoneType'>\""]
+T += ["r.c.anything(lower(r.s))", "unknown_name(upper(r.s))", "eval(lower(r.s))", "r.c.fire(lower(r.s), upper(r.s))", "r.sub.c.fire(x=lower(r.s))", "r.l.append(lower(r.s))",
+      "open(lower(r.s), 'w')", "r.c.fire(field_contains(r, ['s'], ['a']))", "(lambda: 1)(lower(r.s))", "r.s.zfill(lower(r.s))"]
 for _nm in NAMESPACE_NAMES:
     T += ["any(%s('string') for %s in [r.c.fire])" % (_nm, _nm), "any(%s.fire() for %s in [r.c])" % (_nm, _nm),
           "any(any(%s() for _j in [1]) for %s in (r.c.fire,))" % (_nm, _nm)]
